@@ -110,12 +110,12 @@ func vfMkFb(c vfFbCfg) *VesaFbConsole {
 	return cons
 }
 
-func vfRefPack(c vfFbCfg, cons *VesaFbConsole, idx uint8) []byte {
+func vfRefPack(c vfFbCfg, model []color.RGBA, idx uint8) []byte {
 	if c.Bpp == 8 {
 		return []byte{idx}
 	}
 	ci := vfMasks[c.Mask]
-	rgba := cons.palette[idx].(color.RGBA)
+	rgba := model[idx]
 	v := uint32(rgba.R>>(8-ci.RedMaskSize))<<ci.RedPosition | uint32(rgba.G>>(8-ci.GreenMaskSize))<<ci.GreenPosition | uint32(rgba.B>>(8-ci.BlueMaskSize))<<ci.BluePosition
 	out := []byte{byte(v), byte(v >> 8), byte(v >> 16)}
 	if (uint32(c.Bpp+1) >> 3) == 2 {
@@ -135,6 +135,14 @@ type vfConsOp struct {
 	Bg    uint8  `json:"bg"`
 	Dir   int    `json:"dir"`
 	Lines uint32 `json:"lines"`
+	// Pal: a palette entry is redefined (SetPaletteColor) before the operation; the operation must then paint with the
+	// colours as redefined (the reference keeps its own palette)
+	Pal *vfPalOp `json:"palette_update,omitempty"`
+}
+
+type vfPalOp struct {
+	Idx        uint8 `json:"index"`
+	R, G, B, A uint8
 }
 
 type vf19Replay struct {
@@ -181,6 +189,26 @@ func vf19Fb(run *verifrt.Run, c vfFbCfg, op vfConsOp) {
 	}
 	f := vfFont(c.Font)
 	cons := vfMkFb(c)
+	// the reference's own palette: the default one, as loaded, plus every redefinition made through the API
+	model := make([]color.RGBA, len(cons.palette))
+	for i, pc := range cons.palette {
+		if pc != nil {
+			model[i] = pc.(color.RGBA)
+		}
+	}
+	if op.Pal != nil {
+		nc := color.RGBA{op.Pal.R, op.Pal.G, op.Pal.B, op.Pal.A}
+		var ppan interface{}
+		func() {
+			defer func() { ppan = recover() }()
+			cons.SetPaletteColor(op.Pal.Idx, nc)
+		}()
+		if ppan != nil {
+			report("panic", fmt.Sprintf("SetPaletteColor panicked: %v", ppan))
+			return
+		}
+		model[op.Pal.Idx] = nc
+	}
 	before := append([]byte(nil), cons.fb...)
 	cols, rows, logo := c.Cols, c.Rows, c.Logo
 	bypp := uint32(c.Bpp+1) >> 3
@@ -221,15 +249,15 @@ func vf19Fb(run *verifrt.Run, c vfFbCfg, op vfConsOp) {
 				gy := py - logo - (y-1)*f.GlyphHeight
 				b := f.Data[uint32(op.Ch)*f.BytesPerRow*f.GlyphHeight+gy*f.BytesPerRow+gx/8]
 				if b&(0x80>>(gx%8)) != 0 {
-					return vfRefPack(c, cons, op.Fg), true
+					return vfRefPack(c, model, op.Fg), true
 				}
-				return vfRefPack(c, cons, op.Bg), true
+				return vfRefPack(c, model, op.Bg), true
 			}
 		}
 	case "fill":
 		cx, cy, ex, ey := vfClip(op.X, op.Y, op.W, op.H, cols, rows)
 		allowed = []vfRect{{(cx - 1) * f.GlyphWidth, logo + (cy-1)*f.GlyphHeight, (ex - 1) * f.GlyphWidth, logo + (ey-1)*f.GlyphHeight}}
-		expectPix = func(px, py uint32) ([]byte, bool) { return vfRefPack(c, cons, op.Bg), true }
+		expectPix = func(px, py uint32) ([]byte, bool) { return vfRefPack(c, model, op.Bg), true }
 	case "scroll":
 		if op.Lines >= 1 && op.Lines <= rows {
 			// the text area may change (vacated lines unconstrained); the logo rows may not
@@ -511,6 +539,31 @@ func TestVerifC19(t *testing.T) {
 			}
 		}
 	}
+	// a palette entry redefined first (a colour that packs differently, one that differs only below the mask
+	// resolution, one that differs only in alpha, the same colour again), then painting with the redefined entry and
+	// with entry 0
+	for _, d := range depths {
+		idx++
+		if !run.Mine(idx) {
+			continue
+		}
+		for _, fn := range []string{"synth8x2", "synth9x2"} {
+			for _, dirty := range []bool{false, true} {
+				c := vfFbCfg{2, 2, fn, d.bpp, d.mask, 5, 3, 0, dirty}
+				probe := vfMkFb(c)
+				for _, pi := range []uint8{0, 1, 7, 15, 255} {
+					old, _ := probe.palette[pi].(color.RGBA)
+					for _, nc := range []color.RGBA{{old.R ^ 0x80, old.G, old.B ^ 0x40, old.A}, {old.R ^ 1, old.G ^ 1, old.B ^ 1, old.A}, {old.R, old.G, old.B, old.A ^ 0xff}, old, {old.R ^ 2, old.G, old.B ^ 4, old.A ^ 1}} {
+						pal := &vfPalOp{pi, nc.R, nc.G, nc.B, nc.A}
+						for _, pr := range [][2]uint8{{0, pi}, {pi, 0}, {1, 0}, {0, 0}, {pi, pi}} {
+							vf19Fb(run, c, vfConsOp{Op: "write", X: 1, Y: 2, Ch: 'A', Fg: pr[0], Bg: pr[1], Pal: pal})
+							vf19Fb(run, c, vfConsOp{Op: "fill", X: 1, Y: 1, W: 2, H: 1, Fg: pr[0], Bg: pr[1], Pal: pal})
+						}
+					}
+				}
+			}
+		}
+	}
 	// text mode
 	for cols := uint32(1); cols <= 4; cols++ {
 		for rows := uint32(1); rows <= 4; rows++ {
@@ -532,6 +585,6 @@ func TestVerifC19(t *testing.T) {
 			vf19Vga(run, 80, 25, true, op)
 		}
 	}
-	run.Finish(true, "framebuffer: grids 1..3 x 1..3, fonts {8x2, 9x2, 16x1 synthetic, shipped 8x16; thorough: 12x3 and all three shipped fonts}, depths {8,15,16,24,32} with mask layouts {5-5-5, 5-6-5, RGB888, BGR888}, pitch padding {0,(1),5}, logo rows {0,(1),3}, remainder rows {0,1}, pristine and fully written pre-states; every uint32 argument from {0,1,2,dim-1,dim,dim+1,2^31,2^32-2,2^32-1}; text mode grids 1..4 x 1..4 and 80x25; full product per operation (Write, Fill, Scroll up/down)",
+	run.Finish(true, "framebuffer: grids 1..3 x 1..3, fonts {8x2, 9x2, 16x1 synthetic, shipped 8x16; thorough: 12x3 and all three shipped fonts}, depths {8,15,16,24,32} with mask layouts {5-5-5, 5-6-5, RGB888, BGR888}, pitch padding {0,(1),5}, logo rows {0,(1),3}, remainder rows {0,1}, pristine and fully written pre-states; every uint32 argument from {0,1,2,dim-1,dim,dim+1,2^31,2^32-2,2^32-1}; text mode grids 1..4 x 1..4 and 80x25; full product per operation (Write, Fill, Scroll up/down); Write/Fill after a palette entry was redefined (5 entries x 5 new colours incl. same-packing ones) against the reference's own palette",
 		"distinct = console configuration; each case compares every byte of the framebuffer with the pixel/cell reference")
 }
